@@ -1,6 +1,6 @@
 (** * Extract: extraction of the executable model (ExtrOcamlBasic only; nat, N, Z stay inductive) *)
-From FB Require Import Base Syntax World SlotMap Fub Unbounded Ordered Adapters Step.
+From FB Require Import Base Syntax World SlotMap Fub Unbounded Ordered Adapters Step Monitors.
 Require Import ExtrOcamlBasic.
 Extraction Language OCaml.
 
-Extraction "../ocaml/gen/model.ml" step_op run init_state.
+Extraction "../ocaml/gen/model.ml" step_op run init_state chk_C02 chk_C04 chk_C05 chk_C06 chk_C07 chk_C08 chk_C09 chk_C10 chk_C11 chk_C13a chk_C14b chk_C15 chk_C16.
